@@ -95,7 +95,7 @@ pub fn op(r: &Rec) -> Vec<Vec<i128>> {
 }
 
 /// arbitrary words: boundary dictionary / small / bounded / full range
-fn garbage(rng: &mut Rng, cnt: usize, b: usize) -> Vec<i128> { (0..cnt).map(|_| rng.val64(b as u32 + 2) as i128).collect() }
+fn garbage(rng: &mut Rng, cnt: usize, b: usize) -> Vec<i128> { (0..cnt).map(|_| rng.val64((b as u32 + 2).min(62)) as i128).collect() }
 
 /// the value classes of the property at precision k for a w-bit integer type, clipped to the type
 fn candidates(rng: &mut Rng, k: usize, w: u32) -> Vec<i128> {
